@@ -15,25 +15,25 @@ NOTE = ("Trusted base: the virtual-time kernel (vlib/simkernel.py) and bus model
 
 # id -> (level, text, design_ref)   only checks listed here are claimed
 BUILT = {
- "C01": ("exploration", "Generated networks of 2-4 real stacks with overlapping transfers, independent windows and per-receiver latencies incl. re-entrant delivery, judged by a reference delivery model (multiset equality per listener, both directions). Reaches schedules/latencies the real-time suite cannot produce; covers thousands of networks per run.", "5/C01"),
- "C02": ("exploration", "Generated FD networks with bursts of up to 14 simultaneous sessions per stack (one or both directions, staggered waves) judged by a reference delivery model and a reference capacity model (first 8 RTS/CTS + 4 BAM accepted, further calls refused without a frame).", "5/C02"),
- "C03": ("exploration", "Differential testing against an independent implementation of the SAE frame layouts (reference peer + strict decoder) in both roles, both layers, RTS/CTS and BAM, with the peer's legal choices generated; a symmetric encoder+decoder mistake passes stack-vs-stack tests but fails here.", "5/C03"),
+ "C01": ("exploration", "Generated networks of 2-4 real stacks with overlapping transfers, independent windows and per-receiver latencies incl. re-entrant delivery, judged by a reference delivery model (multiset equality per listener, both directions). Submissions from the application, timer and receive callbacks and from retrying applications; frame writes that take time before/after the frame is on the bus; slow receive callbacks; payload lists reused by the caller; data page 1 with the protocol's own PDU formats. Reaches schedules/latencies the real-time suite cannot produce; covers thousands of networks per run.", "5/C01"),
+ "C02": ("exploration", "Generated FD networks with bursts of up to 14 simultaneous sessions per stack (one or both directions, staggered waves) judged by a reference delivery model and a reference capacity model (first 8 RTS/CTS + 4 BAM accepted, further calls refused without a frame); submissions from several contexts a fraction of a millisecond apart while frame writes take up to 2 ms.", "5/C02"),
+ "C03": ("exploration", "Differential testing against an independent implementation of the SAE frame layouts (reference peer + strict decoder) in both roles, both layers, RTS/CTS and BAM, with the peer's legal choices generated (grants, holds refreshed after up to 0.499 s, retransmission requests, latencies, limits, pacing); a symmetric encoder+decoder mistake passes stack-vs-stack tests but fails here.", "5/C03"),
  "C04": ("exploration", "Generated claim configurations (adversarial NAME sets in every order, AAC mix, address layouts, claim instants around the 250 ms veto window, latencies incl. re-entrant) judged by a validity predicate over final states and the bus trace: settled, unique, lowest NAME keeps a contested address, losers cannot-claim or move.", "5/C04"),
  "C05": ("exploration", "Generated stack configurations (CAs in every claim state, ECU-level listeners) with an exhaustive inner sweep over all 256 destination addresses (battery of single and transport frames to unowned ones, single frame + complete transfer to owned ones), a foreign bystander session, broadcasts, and all 8 frame-flag combinations; reference routing table with no-TX / no-state checks.", "5/C05"),
  "C06": ("fault_enumeration", "Every single frame loss and every silence point of either peer, for 110 transfer shapes on both data link layers, enumerated completely per shape (k over all bus frames), with recovery follow-up; payload/latency draws by Hypothesis.", "5/C06"),
- "C07": ("exploration", "Grammar-based fuzzing: protocol-aware frame sequences (all control bytes, boundary fields, spoofed sources, gaps up to beyond every timeout) injected while own transfers run; liveness via thread state and a deterministic busy-spin watchdog, then timer, release and follow-up-transfer oracles.", "5/C07"),
+ "C07": ("exploration", "Grammar-based fuzzing: protocol-aware frame sequences (all control bytes, boundary fields, spoofed sources, gaps up to beyond every timeout) injected while own transfers run, plus reactive injection (answers to the stack's own frames while it is still writing them); liveness via thread state and a deterministic busy-spin watchdog, then timer, release and follow-up-transfer oracles.", "5/C07"),
  "C08": ("exploration", "Every traced source line of either job thread as a pre-emption point (3 durations) for 8 transfer shapes, differential against the un-pre-empted run; double pre-emptions sampled. Line-granular, not bytecode-granular.", "5/C08"),
- "C09": ("exploration", "Trace monitor over the time-stamped bus log of generated sessions (stack vs reference peer in both roles, stack vs stack): clearance per CTS, order, holds, BAM and connection-mode pacing, grant bounds.", "5/C09"),
- "C10": ("exploration", "Model-based testing of transfer histories with injected fates and inbound sessions on arbitrary session numbers against a reference capacity model, then a full-concurrency probe that must be accepted and delivered and one more call that must be refused without a frame.", "5/C10"),
- "C11": ("exploration", "Generated send_pgn sequences (packing boundaries, time limits, FEFF/FBFF, app/timer context) with an independent multi-PG reference unpacker over every emitted frame, delivery multiset per listener, and a deadline monitor.", "5/C11"),
- "C12": ("exploration", "Generated operation histories executed on the real ECU job thread under a virtual-time kernel and compared with a reference timer model: call windows per registration, no drift, no call after removal, no missing call; includes exact deadline/clock coincidences.", "5/C12"),
- "C13": ("exploration", "Generated claim histories (start, waits around the veto window, contending claims) interleaved with send attempts through every entry point; oracle = known loss events + public CA state at each call, and a trace monitor over every emitted frame.", "5/C13"),
- "C14": ("exploration", "Generated responder configurations in every claim state with an exhaustive sweep over all 256 destinations for boundary/random PGNs incl. the address-claim PGN; reference dispatch (callbacks exactly once on owning operational CAs, claim answers, request encoding).", "5/C14"),
- "C15": ("exploration", "PGN space (2^18) enumerated in both tiers, identifier space (2^29) enumerated in the thorough tier (stride sample + boundaries in quick), NAME space covered by exhaustive per-field sweeps, single bits, boundary tuples and Hypothesis draws, all against an independent reference codec.", "5/C15"),
- "C16": ("exploration", "DTC (all 2^19 SPN), lamp (all 5^4) and DM22 codecs enumerated against the J1939-73 bit layout; generated end-to-end DM1 histories (1..400 codes, single frame / BAM / FD multi-PG / FD BAM, several cycles, stop_send then silence) on both layers.", "5/C16"),
- "C17": ("exploration", "Generated DM14 read/write transactions (1..255 bytes, object sizes 1/2/4/8, raw/converted, signed/unsigned, seed/key on/off, back to back) between two real stacks with blocking application threads in virtual time, judged by a reference memory model, proceed-callback arguments and idleness afterwards.", "5/C17"),
+ "C09": ("exploration", "Trace monitor over the time-stamped bus log of generated sessions (stack vs reference peer in both roles, stack vs stack): clearance per CTS, order, holds, BAM and connection-mode pacing (also with further broadcast sessions of the same stack running at once and frame writes that take time), grant bounds.", "5/C09"),
+ "C10": ("exploration", "Model-based testing of transfer histories with injected fates (incl. a responder that times out itself while the stack's own time-out abort is being written) and inbound sessions on arbitrary session numbers against a reference capacity model, then a full-concurrency probe that must be accepted and delivered and one more call that must be refused without a frame.", "5/C10"),
+ "C11": ("exploration", "Generated send_pgn sequences (packing boundaries, time limits, FEFF/FBFF, app/timer context, frame writes that take time) with an independent multi-PG reference unpacker over every emitted frame, delivery multiset per listener, and a deadline monitor.", "5/C11"),
+ "C12": ("exploration", "Generated operation histories executed on the real ECU job thread under a virtual-time kernel and compared with a reference timer model: call windows per registration, no drift, no call after removal or unsubscription, no missing call; operations from inside timer and subscriber callbacks, callbacks that take time, deliveries in flight; includes exact deadline/clock coincidences.", "5/C12"),
+ "C13": ("exploration", "Generated claim histories (start, waits around the veto window, contending claims) interleaved with send attempts through every entry point; oracle = known loss events + public CA state at each call, a trace monitor over every emitted frame, and liveness of the background thread under services built on the send calls (DM1 cycle).", "5/C13"),
+ "C14": ("exploration", "Generated responder configurations in every claim state with an exhaustive sweep over all 256 destinations for boundary/random PGNs incl. the address-claim PGN; reference dispatch (every registered request callback exactly once on owning operational CAs - also when one unsubscribes itself -, claim answers, request encoding).", "5/C14"),
+ "C15": ("exploration", "PGN space (2^18) enumerated in both tiers, identifier space (2^29) enumerated in the thorough tier (stride sample + boundaries in quick), NAME space covered by exhaustive per-field sweeps, single bits, boundary tuples and Hypothesis draws (constructor and setter paths), plus the arbitration decision of a real CA for NAME pairs incl. contender frames with the reserved bit set, all against an independent reference codec.", "5/C15"),
+ "C16": ("exploration", "DTC (all 2^19 SPN), lamp (all 5^4) and DM22 codecs enumerated against the J1939-73 bit layout; generated end-to-end DM1 histories (1..400 codes, single frame / BAM / FD multi-PG / FD BAM, several cycles incl. cycles shorter than the transfer, the data callback asked every cycle, a sending object that also subscribes while a foreign node sends DM1, stop_send from the application and from inside the callback, then silence) on both layers.", "5/C16"),
+ "C17": ("exploration", "Generated DM14 read/write transactions (1..255 bytes, object sizes 1/2/4/8, raw/converted, signed/unsigned, seed/key on/off, back to back) between two real stacks with blocking application threads in virtual time and client-side frame writes that take time, judged by a reference memory model, proceed-callback arguments and idleness afterwards.", "5/C17"),
  "C18": ("exploration", "Generated histories of DM14 operations with failure fates (wrong key, refusal by the proceed callback, respond(False) with every J1939 error code, absent server) judged by: callbacks only after the matching key (bus trace), exception text and timing, and success of the next well-formed operation.", "5/C18"),
- "C19": ("fault_enumeration", "An intruding DM14 (other source address, or the requester's own address with another pointer; once or three times) injected after every bus frame of every transaction shape, differential against the undisturbed run: callbacks, client result, respond() result, completion, and 'the only answer is a failed/busy DM15 to the sender'.", "5/C19"),
+ "C19": ("fault_enumeration", "An intruding DM14 (other source address, or the requester's own address with another pointer; once or three times) injected after every bus frame of every transaction shape, differential against the undisturbed run: callbacks, client result, respond() result, completion, and 'the only answer is a failed DM15 with error indicator busy to the sender'.", "5/C19"),
 }
 
 
